@@ -1,5 +1,6 @@
 import NA.Proofs.C16
 import NA.Gen.MapRanges
+import NA.Gen.MapRangesDescr
 /-!
 # C16 — output is a deterministic function of the inputs
 
@@ -11,7 +12,7 @@ entry lists and all their permutations:
 * the library (`NA.PermFold`): `foldl_perm`, `sort_perm`, `find?_perm_invariant_iff`,
   `findSome?_perm_invariant_iff`;
 * one theorem `site_…` per `range`-over-map loop of go/pkg/... (site models of
-  `NA.Model.MapSites`), and `every_site_hash_tied_to_shape`: every site of the list **regenerated from
+  `NA.Model.MapSites`), and `every_site_described_or_hash_tied`: every site of the list **regenerated from
   the source** (`NA.Gen.MapRanges.sites`: file, function, map expression, hash of the loop
   text, syntactic class) is matched by a line of `expected` whose shape theorem holds — a new
   loop or a changed loop body has no proof and the build fails;
@@ -210,44 +211,54 @@ theorem shape_holds : ∀ sh, ShapeHolds sh := by
   · intro α β items l₁ l₂ p s; exact foldl_perm_of_rightComm _ (setInsert_rightComm items) p s
   · intro κ ν μ _ skip parse es₁ es₂ hm p s; exact foldl_perm _ p (exitOrOwnKey_commOn skip parse hm) s
 
-/-- Sites found in the source that match no line of `expected`. -/
-def uncovered : List Site :=
-  sites.filter (fun s => !expected.any (fun e => e.matchesSite s.file s.fn s.mapExpr s.ord s.hash s.cls))
+/-- A site is tied if its regenerated descriptor describes the body (then `runBody_perm` covers it
+for every semantics, no hand-written row needed), or — for a body the translator cannot describe —
+if it matches a row of `expected` by file, function, hash of the alpha-normalised loop text and class. -/
+def siteTied (s : Site) (d : NA.C16.D.SiteDescr) : Bool :=
+  (s.file == d.file && s.fn == d.fn && s.mapExpr == d.mapExpr && s.ord == d.ord) &&
+    (d.body.described || expected.any (fun e => e.matchesSite s.file s.fn s.hash s.cls))
 
--- Diagnostic only (the theorem below is what counts): name the loops that have no proof.
+/-- Sites that are neither described nor matched by a row. -/
+def uncovered : List (Site × NA.C16.D.SiteDescr) :=
+  (sites.zip NA.Gen.MapRangesDescr.descrs).filter (fun p => !siteTied p.1 p.2)
+
+def sortedCount (file fn : String) : Nat := (sortedRanges.filter (fun r => r.1 == file && r.2.1 == fn)).length
+
+-- Diagnostic only (the theorems below are what counts).
 #eval (do
   unless uncovered.isEmpty do
-    throw (IO.userError ("C16: range-over-map loops that match no line of `expected` (new loop or changed loop text; hash tie): " ++
-      toString (uncovered.map fun s => s!"{s.file} {s.fn} range {s.mapExpr} #{s.ord} hash={s.hash} class={s.cls}")))
-  let lost := repaired.filter (fun r => !sortedRanges.contains r)
+    throw (IO.userError ("C16: range-over-map loops whose body the translator cannot describe and that match no row of `expected`: " ++
+      toString (uncovered.map fun p => s!"{p.1.file} {p.1.fn} range {p.1.mapExpr} #{p.1.ord} hash={p.1.hash} class={p.1.cls} descriptor={repr p.2.body}")))
+  let lost := repaired.filter (fun r => sortedCount r.1 r.2.1 < r.2.2)
   unless lost.isEmpty do
-    throw (IO.userError ("C16: repaired loops that no longer iterate over sorted keys: " ++ toString lost))
+    throw (IO.userError ("C16: functions whose repaired loops no longer iterate over sorted keys (file, function, expected number): " ++ toString lost))
   : IO Unit)
 
-/-- **The tie (T-gen).** Every `range` over a map found in the source by the translator is one
-of the expected sites: same file, function, map expression, ordinal, same hash of the loop
-text and same syntactic class. -/
+/-- **The tie (T-gen).** Every `range` over a map found in the source is either *described* by the
+descriptor regenerated from the source (same run, same site), or matches a row of `expected`. -/
 theorem sites_covered :
-    sites.all (fun s => expected.any (fun e =>
-      e.matchesSite s.file s.fn s.mapExpr s.ord s.hash s.cls)) = true := by decide
+    sites.length = NA.Gen.MapRangesDescr.descrs.length ∧
+    (sites.zip NA.Gen.MapRangesDescr.descrs).all (fun p => siteTied p.1 p.2) = true := by decide
 
-/-- **Hash tie.** Every `range` over a map found in the source matches a line of the hand-written
-table `expected`: same file, function, map expression, ordinal, **same hash of the loop text**, same
-syntactic class; and the shape named in that line is one for which the generic order-insensitivity
-statement `ShapeHolds` is a theorem (`shape_holds` — true of every shape, so the content of this
-statement is the hash equality: the assignment of a shape to a site is by hand and is checked
-against the source only through the hash, and — since round 3 — through the descriptor read off the
-source: `descr_agrees_with_shape`, `drc_planning_deterministic` in Props/C16Run.lean). -/
-theorem every_site_hash_tied_to_shape :
-    ∀ s, s ∈ sites → ∃ e, e ∈ expected ∧
-      e.matchesSite s.file s.fn s.mapExpr s.ord s.hash s.cls = true ∧ ShapeHolds e.shape := by
-  intro s hs
-  have h := List.all_eq_true.mp sites_covered s hs
-  obtain ⟨e, he, hm⟩ := List.any_eq_true.mp h
-  exact ⟨e, he, hm, shape_holds e.shape⟩
+/-- Every `range` over a map in the source: its body is described by the regenerated descriptor — then
+it is order-insensitive for every semantics by `runBody_perm` (Props/C16Run.lean:
+`described_sites_order_insensitive`) — or it is **tied by hash** to a row of `expected` whose shape
+has a generic theorem (`ShapeHolds`, true of every shape: for these loops the assignment of the shape
+is by hand and checked against the source only through the hash and the table facts). -/
+theorem every_site_described_or_hash_tied :
+    ∀ p, p ∈ sites.zip NA.Gen.MapRangesDescr.descrs →
+      p.2.body.described = true ∨
+      ∃ e, e ∈ expected ∧ e.matchesSite p.1.file p.1.fn p.1.hash p.1.cls = true ∧ ShapeHolds e.shape := by
+  intro p hp
+  have h := List.all_eq_true.mp sites_covered.2 p hp
+  simp only [siteTied, Bool.and_eq_true, Bool.or_eq_true] at h
+  rcases h.2 with hd | hr
+  · exact Or.inl hd
+  · obtain ⟨e, he, hm⟩ := List.any_eq_true.mp hr
+    exact Or.inr ⟨e, he, hm, shape_holds e.shape⟩
 
-/-- The repaired loops still iterate over sorted keys. -/
-theorem repaired_stay_sorted : repaired.all (fun r => sortedRanges.contains r) = true := by decide
+/-- The functions whose loops were repaired still iterate over sorted keys (any spelling). -/
+theorem repaired_stay_sorted : repaired.all (fun r => decide (r.2.2 ≤ sortedCount r.1 r.2.1)) = true := by decide
 
 /-- No unordered map iterator (`maps.Keys`, `maps.Values`, `maps.All` outside `slices.Sorted…`). -/
 theorem no_loose_iterators : looseIters = [] := by decide
@@ -440,7 +451,7 @@ def obligations : List Lean.Name := [
   ``NA.PermFold.foldl_perm, ``NA.PermFold.sort_perm, ``NA.PermFold.sortBy_perm,
   ``findFirst_invariant_iff, ``firstResult_invariant_iff,
   ``NA.PermFold.strLe_lawful,
-  ``run_schedule_independent, ``sites_covered, ``every_site_hash_tied_to_shape, ``shape_holds, ``repaired_stay_sorted, ``no_loose_iterators,
+  ``run_schedule_independent, ``sites_covered, ``every_site_described_or_hash_tied, ``shape_holds, ``repaired_stay_sorted, ``no_loose_iterators,
   ``anchor_table_agrees, ``default_vals_parse,
   ``site_isValidOutput, ``site_mergeSpocMakeMaps, ``site_mergeSpocWarnings, ``site_anchorProbe,
   ``site_onlyAnchorNames, ``site_posAfterAdd, ``site_posAfterDel, ``site_deleteUnusedCollect,
